@@ -52,11 +52,25 @@ void World::feed_input(const Input &in) {
 	case Input::WSFRAME:
 		if (mode == "exact") {
 			if (cl && cl->no_expect) break;
-			if (in.wf.fin && in.wf.opcode == 1 && in.wf.masked && in.wf.rsv == 0) { res.st.msgs_consumed++; model.on_message(in.c, in.wf.payload); }
-			else if (in.wf.masked && in.wf.fin && in.wf.rsv == 0 && (in.wf.opcode == 9 || in.wf.opcode == 10) && in.wf.len <= 125) probe("ws_ping_pong_in_exact_mode");
-			else { probe("ws_protocol_violation_in_exact_mode"); model.on_peer_gone(in.c, true); if (cl) cl->closing = true; } // RFC 6455: the server must fail the connection
+			probe("ws_in_class:" + std::to_string(in.wscls));
+			bool can_see = cl && !cl->client_closed;
+			switch (in.wscls) {
+			case W_TEXT: res.st.msgs_consumed++; model.on_message(in.c, in.wf.payload); break;
+			case W_PING: { probe("ws_ping"); if (wsstrict) { Exp e; e.kind = Exp::PONG; e.path = in.wf.payload; e.prop = "C12"; e.group = ++model.group_ctr; e.why = "pong for ping"; expect(in.c, e); } break; }
+			case W_PONG: probe("ws_pong_in"); break;
+			case W_CLOSE_OK: probe("ws_close_valid"); model.on_peer_gone(in.c, true, 0, wsstrict && can_see, wsstrict ? "C12" : "C05"); if (cl) cl->closing = !wsstrict; break;
+			case W_1002: probe("ws_violation_1002"); model.on_peer_gone(in.c, true, wsstrict ? 1002 : 0, wsstrict && can_see, wsstrict ? "C12" : "C05"); if (cl) cl->closing = !wsstrict; break;
+			case W_1007: probe("ws_violation_1007"); model.on_peer_gone(in.c, true, wsstrict ? 1007 : 0, wsstrict && can_see, wsstrict ? "C12" : "C05"); if (cl) cl->closing = !wsstrict; break;
+			case W_1002_OR_1007: probe("ws_violation_1002_or_1007"); model.on_peer_gone(in.c, true, wsstrict ? 10027 : 0, wsstrict && can_see, wsstrict ? "C12" : "C05"); if (cl) cl->closing = !wsstrict; break;
+			case W_FRAG: case W_BINARY: default:
+				// a fragmented (or binary) data message is either processed or refused with a close frame; this daemon refuses, which is what is modelled.
+				// If it does not, the run cannot be judged further (reassembly is not modelled): flagged at the next quiescent point.
+				probe(in.wscls == W_FRAG ? "ws_fragment" : "ws_binary");
+				model.on_peer_gone(in.c, true, 0, wsstrict && can_see, wsstrict ? "C12" : "C05"); if (cl) { cl->closing = !wsstrict; cl->policy.put("may_process_frag", JV::boolean(true)); }
+				break;
+			}
 		} else if (mode == "ledger" && cl) {
-			if (in.wf.fin && in.wf.opcode == 1 && in.wf.masked && in.wf.rsv == 0) { res.st.msgs_consumed++; ledger_request(*cl, in.wf.payload); }
+			if (in.wscls == W_TEXT) { res.st.msgs_consumed++; ledger_request(*cl, in.wf.payload); }
 			else cl->no_expect = true; // protocol-level traffic: only survival is checked
 		}
 		break;
@@ -180,6 +194,11 @@ static bool get_set_equal(const JV &a, const JV &b) {
 
 static bool content_match(const Exp &e, const Frame &f, int cls, std::string &near) {
 	const JV &j = f.j;
+	if (e.kind == Exp::PONG) {
+		if (f.t != Frame::WS_CTRL || f.wsop != 10) return false;
+		if (f.raw != e.path) { near = "pong payload " + hexenc(f.raw) + " differs from the ping payload " + hexenc(e.path); return false; }
+		return true;
+	}
 	if (e.kind == Exp::RESP) {
 		if (cls != 0) return false;
 		const JV *id = j.get("id");
@@ -258,6 +277,8 @@ bool World::match_close(Client &cl) {
 			// everything mandatory that had to come before the close must have been seen
 			for (size_t k = 0; k < i; k++) if (!cl.expq[k].optional)
 				violation(cl.expq[k].prop, "closed-before-frame", "connection c" + std::to_string(cl.idx) + " was closed before it received " + cl.expq[k].describe());
+			if (cl.expq[i].need_frame && !cl.expq[i].got_frame && !cl.client_closed && cl.space < 0 && !cl.wr_err)
+				violation("C12", "closed-without-close-frame", "WebSocket connection c" + std::to_string(cl.idx) + " was dropped without the close frame that must precede it (" + cl.expq[i].describe() + ")");
 			cl.expq.clear();
 			return true;
 		}
@@ -320,21 +341,60 @@ void World::on_frame(Client &cl, const Frame &f) {
 		return;
 	}
 	if (f.t == Frame::HTTP) {
+		std::string want = cl.policy.gets("expect_http");
+		if (want == "reject") {
+			// C13: anything that is not a valid upgrade to the configured target
+			if (f.http_status == 101) violation("C13", "invalid-upgrade-accepted", "a request that is not a valid WebSocket upgrade (" + cl.policy.gets("defect") + ") was answered with 101 Switching Protocols");
+			if (f.http_status >= 400 && f.http_status <= 599) { cl.http_err_seen = true; probe("http_error_status:" + std::to_string(f.http_status)); }
+			else violation("C13", "bad-status-for-invalid-request", "invalid request (" + cl.policy.gets("defect") + ") answered with status " + std::to_string(f.http_status) + ": " + ascii_safe(f.raw.substr(0, 60)));
+			return;
+		}
+		if (want == "any") return;
 		if (cl.hs_sent && !cl.no_expect && mode != "none") {
 			if (f.http_status != 101) violation("C12", "valid-upgrade-refused", "a valid upgrade request was answered with status " + std::to_string(f.http_status));
 			std::string key = cl.policy.gets("wskey");
 			if (!key.empty() && f.raw.find("Sec-WebSocket-Accept: " + ws_accept_for(key) + "\r\n") == std::string::npos)
 				violation("C12", "wrong-accept-digest", "101 response does not carry the accept digest for the offered key");
+			if (wsstrict) {
+				std::string low; for (char ch : f.raw) low += (char)tolower((unsigned char)ch);
+				if (low.find("\r\nupgrade: websocket\r\n") == std::string::npos || low.find("\r\nconnection: upgrade\r\n") == std::string::npos)
+					violation("C12", "bad-101-headers", "101 response lacks the Upgrade/Connection headers RFC 6455 requires");
+				size_t pp = low.find("\r\nsec-websocket-protocol:");
+				if (cl.policy.getb("offers_jet")) {
+					if (pp == std::string::npos) violation("C12", "subprotocol-not-confirmed", "the client offered the jet subprotocol but the 101 response does not select it");
+					else { size_t e2 = low.find("\r\n", pp + 2); std::string v = low.substr(pp + 26, e2 - pp - 26); while (!v.empty() && v[0] == ' ') v.erase(0, 1); if (v != "jet") violation("C12", "wrong-subprotocol", "101 response selects subprotocol '" + v + "'"); }
+				}
+				if (low.find("sec-websocket-extensions") != std::string::npos && !cl.policy.getb("offers_ext")) violation("C12", "extension-not-offered", "101 response announces an extension the client did not offer");
+			}
 			cl.hs_ok = true; probe("ws_upgraded");
 		}
 		return;
 	}
-	if (cl.od.ws && (f.t == Frame::JSON || f.t == Frame::WS_CTRL || f.t == Frame::WS_OTHER)) {
+	if (cl.od.ws && (f.t == Frame::JSON || f.t == Frame::WS_CTRL || f.t == Frame::WS_OTHER || f.t == Frame::BADJSON)) {
 		if (f.masked) violation("C12", "server-frame-masked", "server sent a masked frame");
 		if (!f.minimal) violation("C12", "non-minimal-length", "server frame length is not minimally encoded");
 		if (f.rsv) violation("C12", "server-rsv-set", "server frame has reserved bits set without a negotiated extension");
+		if (wsstrict && cl.close_frame_seen) violation("C12", "frame-after-close", "server sent another frame (opcode " + std::to_string(f.wsop) + ") after its close frame");
 	}
-	if (f.t == Frame::WS_CTRL || f.t == Frame::WS_OTHER) { probe("ws_ctrl_from_daemon:" + std::to_string(f.wsop)); return; }
+	if (f.t == Frame::WS_CTRL || f.t == Frame::WS_OTHER) {
+		probe("ws_ctrl_from_daemon:" + std::to_string(f.wsop));
+		if (!wsstrict || mode != "exact" || cl.no_expect || cl.faulty) return;
+		if (f.t == Frame::WS_OTHER) { violation("C12", "server-frame-not-complete", "server sent a frame with opcode " + std::to_string(f.wsop) + (f.fin ? "" : " without FIN") + ": data frames must be complete text messages"); return; }
+		if (!f.fin) violation("C12", "server-control-fragmented", "server sent a fragmented control frame");
+		if (f.raw.size() > 125) violation("C12", "server-control-too-long", "server control frame with " + std::to_string(f.raw.size()) + " bytes of payload");
+		if (f.wsop == 8) { on_ws_close_frame(cl, f); return; }
+		if (f.wsop == 9) { probe("ws_ping_from_daemon"); return; }
+		if (f.wsop == 10) {
+			std::string why;
+			for (;;) {
+				if (try_match(cl, f, why)) { probe("ws_pong_matched"); return; }
+				if (!feed_one_pending() && !feed_next_batch_error()) break;
+			}
+			violation("C12", why.empty() ? "unexpected-pong" : "wrong-pong", "connection c" + std::to_string(cl.idx) + " received a pong (" + hexenc(f.raw.substr(0, 32)) + ") that no ping explains" + (why.empty() ? "" : "; " + why));
+		}
+		violation("C12", "server-reserved-opcode", "server sent a control frame with reserved opcode " + std::to_string(f.wsop));
+		return;
+	}
 	client_reaction(cl, f);
 	if (cl.closing || cl.no_expect || cl.faulty) return;
 	if (mode == "ledger") { ledger_frame(cl, f); return; }
@@ -479,23 +539,24 @@ void World::record_baseline() {
 
 void World::check_idle_baseline() {
 	probe("idle_baseline_checked");
+	std::string bp = plan.hdr.gets("baseprop", "C07");
 	if (cjet_get_alloc_size && cjet_get_alloc_size() != base_alloc)
-		violation("C07", "heap-not-at-baseline", "accounted heap is " + std::to_string(cjet_get_alloc_size()) + " bytes with no connection left, idle baseline was " + std::to_string(base_alloc));
+		violation(bp, "heap-not-at-baseline", "accounted heap is " + std::to_string(cjet_get_alloc_size()) + " bytes with no connection left, idle baseline was " + std::to_string(base_alloc));
 	if (get_number_of_peers && get_number_of_peers() != base_peers)
-		violation("C07", "peer-count-not-at-baseline", "peer count " + std::to_string(get_number_of_peers()) + " with no connection left");
+		violation(bp, "peer-count-not-at-baseline", "peer count " + std::to_string(get_number_of_peers()) + " with no connection left");
 	for (auto &k : g_kernel.fds) {
 		if (!k.open) continue;
 		if (std::find(base_fds.begin(), base_fds.end(), k.fd) == base_fds.end()) {
 			const char *kn = k.kind == FD_TIMER ? "timerfd" : k.kind == FD_STREAM ? "connection" : k.kind == FD_FILE ? "file" : "descriptor";
-			violation("C07", std::string("fd-leak/") + kn, std::string("a ") + kn + " is still open after every connection is gone" + (k.in_epoll ? " (and still registered with epoll)" : ""));
+			violation(bp, std::string("fd-leak/") + kn, std::string("a ") + kn + " is still open after every connection is gone" + (k.in_epoll ? " (and still registered with epoll)" : ""));
 		}
-		if (k.kind == FD_TIMER && k.armed) violation("C07", "timer-still-armed", "a timer is still armed with no connection left");
+		if (k.kind == FD_TIMER && k.armed) violation(bp, "timer-still-armed", "a timer is still armed with no connection left");
 	}
 	if (g_arena.live_blocks != base_live_blocks || g_arena.live_bytes != base_live_bytes) {
 		std::string which;
 		int n = 0;
 		for (auto &b : g_arena.blocks) if (b.live && b.seq > 0) { if (n++ < 3 && b.seq > base_live_blocks) which += " #" + std::to_string(b.seq) + "(" + std::to_string(b.size) + "B)"; }
-		violation("C07", "memory-not-reclaimed", "allocator has " + std::to_string(g_arena.live_blocks) + " live blocks / " + std::to_string(g_arena.live_bytes) + " bytes with no connection left; baseline " + std::to_string(base_live_blocks) + " / " + std::to_string(base_live_bytes));
+		violation(bp, "memory-not-reclaimed", "allocator has " + std::to_string(g_arena.live_blocks) + " live blocks / " + std::to_string(g_arena.live_bytes) + " bytes with no connection left; baseline " + std::to_string(base_live_blocks) + " / " + std::to_string(base_live_bytes));
 	}
 }
 
@@ -507,4 +568,75 @@ void World::check_exit() {
 	if (g_arena.live_blocks != 0)
 		violation("C07", "memory-at-exit", std::to_string(g_arena.live_blocks) + " allocations (" + std::to_string(g_arena.live_bytes) + " bytes) still live when main() returns");
 	probe("exit_checked");
+}
+
+// ------------------------------------------------------------------ WebSocket conformance (C12): RFC 6455 table, independent of the daemon's code
+static int close_code_class(int code) {
+	// 0 must reject, 1 must accept, 2 either (registered after the RFC)
+	if (code < 1000) return 0;
+	if (code <= 1003) return 1;
+	if (code <= 1006) return 0;
+	if (code <= 1011) return 1;
+	if (code <= 1014) return 2;
+	if (code <= 2999) return 0;
+	if (code <= 4999) return 1;
+	return 0;
+}
+
+int World::classify_ws(Client &cl, const WsInFrame &wf) {
+	if (!wf.masked) return W_1002;
+	if (wf.rsv != 0) return W_1002;
+	int op = wf.opcode;
+	if ((op >= 3 && op <= 7) || op >= 11) return W_1002;
+	if (op >= 8) {
+		if (!wf.fin) return W_1002;
+		if (wf.len > 125) return (op == 8 && wf.len >= 2 && !valid_utf8(wf.payload.substr(2))) ? W_1002_OR_1007 : W_1002;
+		if (op == 9) return W_PING;
+		if (op == 10) return W_PONG;
+		if (wf.len == 0) return W_CLOSE_OK;
+		if (wf.len == 1) return W_1002;
+		int code = ((unsigned char)wf.payload[0] << 8) | (unsigned char)wf.payload[1];
+		int cc = close_code_class(code);
+		bool utf_ok = valid_utf8(wf.payload.substr(2));
+		if (cc == 0) return utf_ok ? W_1002 : W_1002_OR_1007;
+		if (!utf_ok) return cc == 1 ? W_1007 : W_1002_OR_1007;
+		return W_CLOSE_OK;   // class 2 codes: a close frame of any status
+	}
+	if (op == 0) {
+		if (!cl.ws_in_frag) return W_1002;
+		if (wf.fin) cl.ws_in_frag = false;
+		return W_FRAG;
+	}
+	// op 1 or 2
+	if (cl.ws_in_frag) return W_1002;
+	if (!wf.fin) { cl.ws_in_frag = true; return W_FRAG; }
+	return op == 1 ? W_TEXT : W_BINARY;
+}
+
+void World::on_ws_close_frame(Client &cl, const Frame &f) {
+	if (cl.close_frame_seen) violation("C12", "duplicate-close-frame", "server sent a second close frame");
+	cl.close_frame_seen = true;
+	int status = -1;
+	if (f.raw.size() == 1) violation("C12", "malformed-close-frame", "server close frame with a 1-byte payload");
+	if (f.raw.size() >= 2) {
+		status = ((unsigned char)f.raw[0] << 8) | (unsigned char)f.raw[1];
+		if (!valid_utf8(f.raw.substr(2))) violation("C12", "malformed-close-frame", "server close frame reason is not valid UTF-8");
+		if (close_code_class(status) == 0) violation("C12", "malformed-close-frame", "server close frame carries status " + std::to_string(status) + " which must not appear on the wire");
+	}
+	cl.close_frame_status = status;
+	probe("ws_close_from_daemon:" + std::to_string(status));
+	for (;;) {
+		size_t lim = cl.expq.size();
+		for (size_t i = 0; i < lim; i++) {
+			Exp &e = cl.expq[i];
+			if (e.kind != Exp::CLOSE) continue;
+			bool ok = e.ws_status == 0 || e.ws_status == status || (e.ws_status == 10027 && (status == 1002 || status == 1007));
+			if (!ok) violation("C12", "wrong-close-status", "connection c" + std::to_string(cl.idx) + " was closed with status " + std::to_string(status) + ", required: " + e.describe());
+			e.got_frame = true;
+			return;
+		}
+		if (cl.closing) return;
+		if (!feed_one_pending() && !feed_next_batch_error()) break;
+	}
+	violation("C12", "unexpected-close-frame", "connection c" + std::to_string(cl.idx) + " received a close frame (status " + std::to_string(status) + ") although nothing it sent or suffered ends the connection");
 }
